@@ -6,6 +6,10 @@ from .. import zoo
 from ..core import Check, pmap, main
 
 
+def dispatch(unit):
+    return lm.c12_list_unit(unit) if unit['what'] == 'list' else lm.c12_unit(unit)
+
+
 def run(tier, seed):
     chk = Check('C12', tier, seed, 'exploration',
                 rule="all subsets (size>=2) of a dyadic time lattice as ts x dt in {1/8,1/4,3/8,1/2,2} x every "
@@ -28,11 +32,14 @@ def run(tier, seed):
                 lat = [t - 0.5 for t in lattice] if dt == 0.375 else lattice
                 units.append(dict(cell=list(cell), dtype=dtype, lattice=lat, dts=[dt], entropy=120 + seed,
                                   aslist=[False, True] if dt in (0.375, 0.125) or tier != 'quick' else [False]))
+    units = [dict(u, what='lattice') for u in units]
+    for cell in zoo.cells():
+        units.append(dict(what='list', cell=list(cell), entropy=120 + seed))
     chk.count('work_units', len(units))
     chk.count('cells', len(zoo.cells()))
-    for part in pmap(lm.c12_unit, units):
+    for part in pmap(dispatch, units):
         chk.merge(part)
-    chk.expect('executions', len(units) * 10)
+    chk.expect('executions', len(units) * 8)
     chk.assumptions = ["dyadic times, so the harness's grid equals the library's bit-for-bit",
                        "float32 interpolants compared to 2e-5 relative, float64 to 1e-12"]
     return chk
